@@ -126,7 +126,7 @@ def run_tlc(module, cfg, workers=None, timeout=900, env=None, dfs=False, extra=(
     if dfs:
         jopts += " -Dtlc2.tool.queue.IStateQueue=StateDeque"
     e["JAVA_TOOL_OPTIONS"] = jopts
-    cmd = ["tlc", "-workers", str(workers or NCPU), "-metadir", meta, "-config", cfg]
+    cmd = ["tlc", "-noGenerateSpecTE", "-workers", str(workers or NCPU), "-metadir", meta, "-config", cfg]
     if simulate:
         cmd += ["-simulate", simulate]
     cmd += list(extra) + [module + ".tla"]
@@ -196,7 +196,7 @@ def validate_batch(module, cfg, records, tag, timeout=600, env=None):
         raise ModelFailure("trace validation timed out (%s, %d records)" % (module, len(records)))
     accepted = r["violated"] == "NotAccepted"
     maxl = 0
-    for m in re.finditer(r"MAXL (\d+)", out):
+    for m in re.finditer(r'"MAXL", (\d+)', out):
         maxl = max(maxl, int(m.group(1)))
     if not accepted and not (r["rc"] == 0 or r["violated"]):
         raise ModelFailure("trace validation run failed rc=%d:\n%s" % (r["rc"], out[-4000:]))
@@ -392,3 +392,102 @@ def parallel_map(fn, items, jobs=None):
     from concurrent.futures import ThreadPoolExecutor
     with ThreadPoolExecutor(max_workers=jobs or NCPU) as ex:
         return list(ex.map(fn, items))
+
+
+# ------------------------------------------------------------------------------------------------
+# Binding 1 driver shared by the history-based checks
+
+def split_histories(records, reset_name="reset"):
+    """Split a flat record list at reset records.  Returns (complete, tail): complete histories
+    (reset stripped) and the unterminated tail (possibly empty)."""
+    out, cur = [], []
+    for r in records:
+        r = dict(r)
+        r.pop("seq", None)
+        if r.get("e") == reset_name:
+            out.append(cur)
+            cur = []
+        else:
+            cur.append(r)
+    return out, cur
+
+
+def collect_histories(chk, binary, runs, tag, timeout=180, jobs=None):
+    """runs: list of (args_after_trace_path, env) -- the harness gets the trace path as argv[1].
+    Returns list of (history, origin) where origin describes the run (for replay)."""
+    tdir = os.path.join(BUILD, "traces")
+    os.makedirs(tdir, exist_ok=True)
+
+    def one(i_run):
+        i, (args, env) = i_run
+        path = os.path.join(tdir, "%s-%d-%d.ndjson" % (tag, os.getpid(), i))
+        rc, out = run_harness(binary, [path] + list(args), timeout=timeout, env=env)
+        recs = read_ndjson(path) if os.path.exists(path) else []
+        try:
+            os.unlink(path)
+        except OSError:
+            pass
+        return i, rc, out, recs
+
+    results = parallel_map(one, list(enumerate(runs)), jobs=jobs)
+    hist = []
+    for i, rc, out, recs in results:
+        origin = dict(binary=os.path.basename(binary), args=[str(a) for a in runs[i][0]],
+                      env=runs[i][1] or {}, rc=rc)
+        complete, tail = split_histories(recs)
+        for h in complete:
+            hist.append((h, origin))
+        if tail:
+            hist.append((tail, origin))
+        if rc not in (0,) and not tail and not complete:
+            # the harness produced nothing: machinery failure unless it is a crash of the code
+            raise ModelFailure("harness %s produced no trace (rc=%d): %s" % (binary, rc, out[-2000:]))
+        if rc == 124 and not any(r.get("e") in ("hang", "quiescent", "crash") for r in (tail or [])):
+            hist.append(([{"e": "hang", "outer": 1}], origin))
+    return hist
+
+
+def check_histories(chk, module, cfg, hist, tag, dev_cfgs=None, batch=150, timeout=900,
+                    crash_key=None, hang_is_violation=True):
+    """Validate histories (list of (records, origin)) against the trace spec.  Rejected ones are
+    classified with the deviation configs: dev_cfgs = {deviation_name: cfg_file}."""
+    dev_cfgs = dev_cfgs or {}
+    normal, special = [], []
+    for h, o in hist:
+        if any(r.get("e") in ("crash", "hang") for r in h):
+            special.append((h, o))
+        else:
+            normal.append((h, o))
+    n_ok, rejected, states = validate_histories(module, cfg, [h for h, _ in normal], tag,
+                                                batch=batch, timeout=timeout)
+    chk.cov["traces_validated_against_impl"] += n_ok
+    chk.cov["trace_validation_states"] = chk.cov.get("trace_validation_states", 0) + states
+    for (idx, maxl, viol) in rejected:
+        h, o = normal[idx]
+        explained = None
+        for dev, dcfg in dev_cfgs.items():
+            acc, _, _ = validate_batch(module, dcfg, list(h) + [{"e": "reset"}], tag + "-dev",
+                                       timeout=timeout)
+            if acc:
+                explained = dev
+                break
+        what = "history rejected by %s at record %d (%s)" % (
+            module, maxl, json.dumps(h[maxl - 1]) if 0 < maxl <= len(h) else "end")
+        replay = dict(origin=o, history=h, stuck_at=maxl, spec=module, cfg=cfg,
+                      explained_by_deviation=explained, invariant=viol)
+        if explained:
+            chk.finding_or_violation(explained, what, replay)
+        else:
+            chk.violation(what, replay)
+    for h, o in special:
+        kinds = [r.get("e") for r in h if r.get("e") in ("crash", "hang")]
+        what = "harness %s while running a program that respects the documented preconditions" % (
+            "crashed" if "crash" in kinds else "hung")
+        replay = dict(origin=o, history=h[-60:])
+        if crash_key:
+            k = crash_key(h)
+            if k:
+                chk.finding_or_violation(k, what, replay)
+                continue
+        chk.violation(what, replay)
+    return n_ok, rejected
